@@ -862,7 +862,12 @@ func (o *ovsdbClient) transact(ctx context.Context, dbName string, skipChWrite b
 
 	verifPause(o, "transact:post-rpc")
 	if !skipChWrite && o.trafficSeen != nil {
-		o.trafficSeen <- struct{}{}
+		// never wait for the prober: it may be disconnecting, which waits
+		// for this call to release rpcMutex, or have stopped already
+		select {
+		case o.trafficSeen <- struct{}{}:
+		default:
+		}
 	}
 	return reply, nil
 }
@@ -1333,9 +1338,8 @@ func (o *ovsdbClient) handleDisconnectNotification() {
 	verifPause(o, "disconnect:notified")
 	// close the stopCh, which will stop the cache event processor
 	close(o.stopCh)
-	if o.trafficSeen != nil {
-		close(o.trafficSeen)
-	}
+	// trafficSeen is not closed: the prober stops with stopCh, and a call
+	// that has just got its reply may still be about to send on it
 	o.metrics.numDisconnects.Inc()
 	// wait for client related handlers to shutdown
 	o.handlerShutdown.Wait()
